@@ -8,9 +8,9 @@
    pseudo_selections, pseudo_expected, ...) are at the top of Proofs/HeaderCollectProofs.v and
    Proofs/HeaderWireProofs.v. *)
 From ReqV Require Import Lib.Bytes Model.HeaderOrder Model.HeaderCollect
-  Model.HeaderMerge Model.HeaderSeq Model.HeaderResend Model.HeaderShared Model.HeaderFrag Model.HeaderRedirect Model.HeaderAbandon
+  Model.HeaderMerge Model.HeaderSeq Model.HeaderResend Model.HeaderShared Model.HeaderFrag Model.HeaderRedirect Model.HeaderAbandon Model.HeaderKeepAlive
   Proofs.HeaderOrderProofs Proofs.HeaderCollectProofs Proofs.HeaderWireProofs Proofs.HeaderSyncProofs
-  Proofs.HeaderMergeProofs Proofs.HeaderKeySortProofs Proofs.HeaderSeqProofs Proofs.HeaderResendProofs Proofs.HeaderSharedProofs Proofs.HeaderFragProofs Proofs.HeaderRedirectProofs Proofs.HeaderAbandonProofs Gen.HeaderSrc.
+  Proofs.HeaderMergeProofs Proofs.HeaderKeySortProofs Proofs.HeaderSeqProofs Proofs.HeaderResendProofs Proofs.HeaderSharedProofs Proofs.HeaderFragProofs Proofs.HeaderRedirectProofs Proofs.HeaderAbandonProofs Proofs.HeaderKeepAliveProofs Gen.HeaderSrc.
 From Coq Require Import NArith.
 From Coq Require Import Permutation Sorting.Sorted.
 
@@ -718,6 +718,39 @@ Theorem C16_h3w_leaky_refuted :
   h3w_session (h3w_step_leaky sec frame) [] [(q1, false); (q1, true)] = [None; Some (bs "//")].
 Proof. exact h3w_leaky_refuted. Qed.
 Print Assumptions C16_h3w_leaky_refuted.
+
+(* ===================== part 2g: the transport's own Connection: close (HTTP/1.1, keep-alives disabled) ===================== *)
+
+Theorem C16_h1_lines_ka_off : forall q, h1_lines_ka false q = h1_lines q.
+Proof. exact h1_lines_ka_off. Qed.
+Print Assumptions C16_h1_lines_ka_off.
+
+(* the caller asked for close himself (any letter case, alone or within a token list): the transport
+   adds nothing - the caller's field goes out once *)
+Theorem C16_h1_lines_ka_caller_close : forall dka q,
+  req_wants_close (c_hdr q) = true -> h1_lines_ka dka q = h1_lines q.
+Proof. exact h1_lines_ka_caller_close. Qed.
+Print Assumptions C16_h1_lines_ka_caller_close.
+
+(* otherwise exactly one line Connection: close is added and every other line stays *)
+Theorem C16_h1_lines_ka_adds_one : forall q,
+  req_wants_close (c_hdr q) = false ->
+  Permutation (h1_lines_ka true q) ((bs "Connection", bs "close") :: h1_lines q).
+Proof. exact h1_lines_ka_adds_one. Qed.
+Print Assumptions C16_h1_lines_ka_adds_one.
+
+Theorem C16_conn_close_blind_refuted :
+  let q := mk_creq (bs "GET") (bs "h") (bs "/") (bs "http") [(bs "Connection", [bs "Close"])] 0%Z false in
+  h1_lines_ka true q = [(bs "Host", bs "h"); (bs "User-Agent", default_user_agent); (bs "Connection", bs "Close")] /\
+  flatten (h1_kvs_ka conn_close_kv_blind true q) =
+    [(bs "Host", bs "h"); (bs "User-Agent", default_user_agent); (bs "Connection", bs "Close"); (bs "Connection", bs "close")].
+Proof. exact conn_close_blind_refuted. Qed.
+Print Assumptions C16_conn_close_blind_refuted.
+
+Theorem C16_round7_go_as_modelled :
+  src_h1_conn_close_cond = bs "pc.t.DisableKeepAlives && !reqWantsClose(req.Request) && !isProtocolSwitchHeader(req.Header)".
+Proof. exact h1_conn_close_cond_go_as_modelled. Qed.
+Print Assumptions C16_round7_go_as_modelled.
 
 (* ===================== part 3: the source the model transcribes ===================== *)
 (* Gen/HeaderSrc.v is regenerated from the working tree on every run; these statements pin the text
